@@ -1,5 +1,5 @@
 """Contracts for nix_manipulator/cli/manipulations.py"""
-from pvc.contract import contract, Loop
+from pvc.contract import contract, External, Loop
 from pvc.types import *
 import specs.nixlex  # noqa: F401
 import specs.npath  # noqa: F401
@@ -123,4 +123,107 @@ contract(
         "for j in range(_i))"])},
     domain=False,
     props=["C05", "C12", "C14"],
+)
+
+# ---------------------------------------------------------------------------------------------
+# set_value / remove_value: selector arithmetic, validation order (C09, C07, C08).  The helpers they
+# call are used through assumed contracts here (listed in the evidence); what is *proved* about the
+# real code of set_value/remove_value is: the addressed layer is layers[len(layers) - depth], a
+# selector deeper than the existing layers raises ValueError before any layer is touched, layer
+# creation happens only for depth 1 on a document without layers, the value is exactly one non-raw
+# expression before anything is edited, no IndexError/AttributeError can escape, and only
+# ValueError/KeyError are raised.
+
+_EDIT_EXT = {
+    "parse": External(returns=Ref("NixSourceCode"), params=["source_code"], allocates=True),
+    "_resolve_target_set": External(returns=Ref("AttributeSet"), params=["source"], exsures={"ValueError": []},
+                                    ensures=["all(result.scope_state.stack[j] is not None for j in range(len(result.scope_state.stack)))"],
+                                    note="type invariant of ScopeState.stack (list of layer dicts) assumed"),
+    "_format_npath_segments": External(returns=SeqOf("str"), params=["npath"], exsures={"ValueError": []}),
+    "_path_exists_in_attrset": External(returns=Bool, params=["target_set", "segments"]),
+    "_set_value_in_attrset": External(returns=NoneT, params=["target_set", "npath", "value_expr"], modifies=["*"],
+                                      exsures={"ValueError": [], "KeyError": []}),
+    "_remove_value_in_attrset": External(returns=NoneT, params=["target_set", "npath"], modifies=["*"], preserves=["layers[]"],
+                                         exsures={"ValueError": [], "KeyError": []}),
+    "_remove_attrpath_value": External(returns=NoneT, params=["target_set", "segments"], modifies=["*"],
+                                       exsures={"ValueError": [], "KeyError": []}),
+    "_write_scope_layers": External(returns=NoneT, params=["expr", "layers"], modifies=["*"]),
+    "_resolve_npath": External(returns=Obj(target_set=Ref("AttributeSet"), segments=SeqOf("str"), attrpath_leaf=Ref("Binding"), attrpath_root=Ref("Binding")),
+                               params=["source", "npath"], exsures={"ValueError": []}),
+    "_resolve_npath_parent": External(returns=Tup(Ref("AttributeSet"), Str), params=["target_set", "npath"], modifies=["*"],
+                                      exsures={"ValueError": [], "KeyError": []}),
+    "source.rebuild": External(returns=Str),
+}
+
+_VALID_VALUE = "len(parsed_value.expressions) == 1 and not isinstance(parsed_value.expressions[0], RawExpression)"
+
+contract(
+    target=f"{M}::set_value",
+    params={"source": Ref("NixSourceCode"), "npath": Str, "value": Str},
+    returns=Str,
+    externals=dict(_EDIT_EXT, **{"_set_value_in_attrset#1": External(
+        returns=NoneT, params=["target_set", "npath", "value_expr"], modifies=["*"], preserves=["layers[]"],
+        exsures={"ValueError": [], "KeyError": []})}),
+    modifies=["*"],
+    call_asserts={
+        # C07: nothing is resolved or edited before the value is known to be exactly one non-raw expression
+        "_resolve_target_set": [_VALID_VALUE, "len(source.expressions) == 1"],
+        "_resolve_npath": [_VALID_VALUE, "len(source.expressions) == 1"],
+        "_set_value_in_attrset": ["value_expr is parsed_value.expressions[0]"],
+        # C09: `@`xd addresses layers[len(layers) - d]; the attrset handed to the edit wraps exactly that layer's scope
+        "_set_value_in_attrset#1": ["depth >= 1 and depth <= len(layers)", "target_set.values is layers[len(layers) - depth].scope",
+                                    "target_set.attrpath_order is layers[len(layers) - depth].attrpath_order"],
+        # a layer is created only for depth 1 on a target without layers (checked where the layers are written back)
+        "_write_scope_layers": ["depth >= 1 and depth <= len(layers)"],
+    },
+    ensures=[],
+    exsures={"ValueError": [], "KeyError": []},
+    domain=False,
+    props=["C09", "C07", "C08"],
+)
+
+contract(
+    target=f"{M}::remove_value",
+    params={"source": Ref("NixSourceCode"), "npath": Str},
+    returns=Str,
+    externals=dict(_EDIT_EXT, **{"rebuilt.rstrip": External(returns=Str)}),
+    modifies=["*"],
+    call_asserts={
+        "_resolve_target_set": ["len(source.expressions) == 1"],
+        "_resolve_npath": ["len(source.expressions) == 1"],
+        "_remove_value_in_attrset": ["depth >= 1 and depth <= len(layers)", "layer_index == len(layers) - depth",
+                                     "target_set.values is layers[len(layers) - depth].scope",
+                                     "target_set.attrpath_order is layers[len(layers) - depth].attrpath_order"],
+        # pruning removes exactly the layer that was addressed, and only when it became empty
+        "_write_scope_layers": ["implies(removed_layer is not None, removed_layer is target_layer and len(target_layer.scope) == 0)"],
+    },
+    exsures={"ValueError": [], "KeyError": []},
+    loops={0: Loop(invariant=["True"], modifies=["source.trailing[]"])},
+    domain=False,
+    props=["C09", "C08"],
+)
+
+contract(
+    target=f"{M}::_collect_scope_layers",
+    params={"expr": Ref("AttributeSet")},
+    returns=ListRef(),
+    modifies=[],
+    requires=["all(expr.scope_state.stack[j] is not None for j in range(len(expr.scope_state.stack)))"],
+    ensures=[
+        # a fresh list of (fresh) layer dicts ...
+        "all(result[j] is not None and isinstance(result[j], dict) for j in range(len(result)))",
+        # ... outermost first: the expression's own `scope` is layer 0 whenever it is non-empty
+        "implies(len(expr.scope) > 0, len(result) >= 1 and result[0].scope is expr.scope)",
+        "implies(len(expr.scope) == 0 and len(expr.scope_state.stack) == 0, len(result) == 0)",
+        # ... and nothing of the document is modified
+        "heap_unchanged()",
+    ],
+    loops={0: Loop(invariant=[
+        "all(layers[j] is not None and isinstance(layers[j], dict) for j in range(len(layers)))",
+        "implies(len(expr.scope) > 0, len(layers) >= 1 and layers[0].scope is expr.scope)",
+        "implies(len(expr.scope) == 0, len(layers) <= _i)",
+        "layers >= alloc_at_entry()",
+    ], modifies=["layers[]"])},
+    domain=False,
+    props=["C09"],
 )
